@@ -3,7 +3,7 @@
 From Coq Require Import String List NArith Bool.
 From J5V.lib Require Import Outcome Strcase.
 From J5V.model Require Import J5sAst Desc J5sWalk J5sLink J5sConvert J5sContract J5sValid J5sEdit J5sCorr.
-From J5V.proofs Require Import J5sProofs J5sContractProofs J5sEditProofs J5sExtProofs J5sExtBoolProofs J5sPkgExtProofs J5sC13Proofs J5sWitnessProofs.
+From J5V.proofs Require Import J5sProofs J5sContractProofs J5sEditProofs J5sExtProofs J5sExtBoolProofs J5sPkgExtProofs J5sC13Proofs J5sFullProofs J5sWitnessProofs.
 Import ListNotations.
 Local Open Scope N_scope.
 
@@ -121,7 +121,7 @@ Qed.
 Print Assumptions C13_package_append_preserves.
 
 (* the property at full strength, on the linked descriptors (what CompilePackage returns): for
-   every valid bundle whose files lie in package directories, every package of it and every
+   every valid bundle (validity includes: every file lies in a package directory), every package of it and every
    sequence of append edits (fold_left over the list: apply_edits; an edit appends a field, an
    option or a nested declaration anywhere inside a declaration - J5sEdit.EAppendIn and its
    top-level special cases - or a declaration to a file) each of which addresses a source file,
@@ -133,18 +133,25 @@ Print Assumptions C13_package_append_preserves.
    per-file embedding, the growth of the environment, the package-level file list and the fact
    that qualifying type names commutes with the embedding. *)
 Definition C13_full_statement : Prop :=
-  forall es bd pkg D,
-    valid bd = true -> (forall x, In x bd -> bfile_pkg x <> []) -> seq_ok bd es ->
-    (exists x, In x bd /\ bfile_pkg x = pkg) ->
-    compile bd pkg = Ok D ->
-    exists D', compile (apply_edits bd es) pkg = Ok D' /\ files_ext D D'.
+  forall es bd pkg,
+    valid bd = true -> seq_ok bd es -> (exists x, In x bd /\ bfile_pkg x = pkg) ->
+    exists D D', compile bd pkg = Ok D /\ compile (apply_edits bd es) pkg = Ok D' /\ files_ext D D'.
 
 (* seq_ok: every edit addresses a source file of the bundle and leaves the bundle valid; no class
    of append edits is excluded (before fix a65e1f2: an option ending in UNSPECIFIED appended to an
    enum without options) *)
 Theorem C13_full : C13_full_statement.
-Proof. exact c13_full. Qed.
+Proof. exact c13_full_valid. Qed.
 Print Assumptions C13_full.
+
+(* the same, naming the old output (the form with the redundant premises the induction uses) *)
+Theorem C13_full_for_output : forall es bd pkg D,
+  valid bd = true -> (forall x, In x bd -> bfile_pkg x <> []) -> seq_ok bd es ->
+  (exists x, In x bd /\ bfile_pkg x = pkg) ->
+  compile bd pkg = Ok D ->
+  exists D', compile (apply_edits bd es) pkg = Ok D' /\ files_ext D D'.
+Proof. exact c13_full. Qed.
+Print Assumptions C13_full_for_output.
 
 (* the boolean test the correspondence evaluates on the REAL descriptors before and after every
    generated edit list (J5sCorr.c13_check) is sound for the embedding relation of C13_full *)
